@@ -57,7 +57,7 @@ def make_scratch(repo):
     return d, injected
 
 
-def run(harnesses, repo="/repo", keep=False, playback=False, jobs=8, timeout=1500):
+def run(harnesses, repo="/repo", keep=False, playback=False, jobs=8, timeout=900):
     t0 = time.time()
     d, injected = make_scratch(repo)
     env = dict(os.environ, CARGO_NET_OFFLINE="true", CARGO_TARGET_DIR=os.path.join(VERIF, ".cache", "kani-target"))
@@ -67,13 +67,15 @@ def run(harnesses, repo="/repo", keep=False, playback=False, jobs=8, timeout=150
     for h in harnesses:
         args += ["--harness", h]
     try:
+        import signal
+        pr = subprocess.Popen(args, cwd=d, env=env, stdout=subprocess.PIPE, stderr=subprocess.STDOUT, text=True, start_new_session=True)
         try:
-            p = subprocess.run(args, cwd=d, env=env, capture_output=True, text=True, timeout=timeout)
-            out = p.stdout + "\n" + p.stderr
-            rc = p.returncode
-        except subprocess.TimeoutExpired as e:
-            out = (e.stdout or b"").decode(errors="replace") if isinstance(e.stdout, bytes) else (e.stdout or "")
-            out += "\nTIMEOUT after %ds" % timeout
+            out, _ = pr.communicate(timeout=timeout)
+            rc = pr.returncode
+        except subprocess.TimeoutExpired:
+            os.killpg(pr.pid, signal.SIGKILL)   # cargo-kani, kani-driver, cbmc
+            out, _ = pr.communicate()
+            out = (out or "") + "\nTIMEOUT after %ds" % timeout
             rc = 124
     finally:
         if not keep:
